@@ -1,5 +1,6 @@
 import GoSSE.Proofs.MessageRoundTrip
 import GoSSE.Proofs.GenEquivWrite
+import GoSSE.Proofs.GenEquivEncode
 import GoSSE.Proofs.GenEquivUnmarshal
 import GoSSE.Props.C02
 /-!
@@ -162,6 +163,21 @@ theorem translated_WriteTo_returns {σ : Type} (fuel : Nat) (w : Writer σ Strin
   unfold GenEquiv.okOrPanic GenEquiv.okOf
   rw [GoSSE.Props.C02.writeTo_never_panics w st m hm]
   rfl
+
+
+/-- `Message.MarshalText` and `Message.String` *as translated from message.go* — each a `WriteTo` into a
+`bytes.Buffer` / `strings.Builder` (the bytes written so far; as an `io.Writer`, the writer that appends and never
+fails) — return, for every message with a `time.Duration` retry value, exactly the model's encoding, `MarshalText`
+with a nil error, and leave the message as it was: the three ways of encoding agree on the source text. -/
+theorem translated_MarshalText_is_encode (fuel : Nat) (m : Message) (hf : 13 < fuel) (hc : m.chunks.length < fuel)
+    (hm : m.retry ≤ (maxInt64 : Int)) :
+    Gen.Message_MarshalText fuel (GenEquiv.toGenMsg m) = .ok (m.encode, none, GenEquiv.toGenMsg m) :=
+  GenEquiv.MarshalText_eq fuel m hf hc hm
+
+theorem translated_String_is_encode (fuel : Nat) (m : Message) (hf : 13 < fuel) (hc : m.chunks.length < fuel)
+    (hm : m.retry ≤ (maxInt64 : Int)) :
+    Gen.Message_String fuel (GenEquiv.toGenMsg m) = .ok (m.encode, GenEquiv.toGenMsg m) :=
+  GenEquiv.MessageString_eq fuel m hf hc hm
 
 
 /-- `Message.UnmarshalText` *as translated from message.go* — `reset`, the field-parser loop with its `switch` (a
